@@ -130,6 +130,44 @@ CHECKS["C14"] = dict(
     design_ref="DESIGN.md section 4 C14",
     note=TB)
 
+CHECKS["C15"] = dict(
+    category="other",
+    technique="subclass-aware isinstance-ladder ordering; finite decision table of json_to_cel over the JSON kinds by abstract interpretation; recursion and coverage rules for the encoder",
+    text="Decides the shape clauses: no isinstance arm is shadowed by an earlier superclass arm (booleans never become integers); the kind table of json_to_cel equals the "
+         "reference for all seven JSON kinds, with recursive conversion of elements, keys and values; the encoder maps BoolType to bool, recurses, and covers timestamp, "
+         "duration and bytes; no type-dispatching conversion is memoized by equality. Round-trip document equality and navigation are not decided.",
+    design_ref="DESIGN.md section 4 C15",
+    note=TB)
+
+CHECKS["C17"] = dict(
+    category="other",
+    technique="typestate rule on the module global C7N (writers, all-paths reset, lexical scoping of evaluate), registry agreement, idiom classification of the small helpers",
+    text="Decides the context clause completely (the filter context is installed only by the context manager, cleared on every path of __exit__, exceptions propagate, "
+         "and every evaluation of the C7N runner happens inside the with-block) and table/registry agreement; for the set/CIDR/tag/ARN helpers it classifies each body "
+         "against the recognised idioms of its definition (a different set operator, swapped arguments, truthiness used as presence are reported). The library maths "
+         "behind the idioms is not decided.",
+    design_ref="DESIGN.md section 4 C17",
+    note=TB + " ipaddress, fnmatch and packaging.Version behave as documented.")
+
+CHECKS["C20"] = dict(
+    category="other",
+    technique="finite exit-status decision tables by kind-level abstract interpretation of main()'s null-input arm and process_json_doc(); fold, dominance and framing rules on the NDJSON loop",
+    text="Extracts the complete exit-status tables over {true,false,other value,evaluation error} x {-b, no -b} plus malformed JSON and a syntax error and compares them with the "
+         "reference; checks that the NDJSON status is a max-fold from 0, that each document alone is bound before evaluate(), that documents are framed by line feeds only, "
+         "and that output goes through CELJSONEncoder unless --format. The printed text for arbitrary values is not decided.",
+    design_ref="DESIGN.md section 4 C20",
+    note=TB + " The per-document table follows the property's mechanism list (0/1/3), which the code's docstring shares.")
+
+CHECKS["C11"] = dict(
+    category="other",
+    technique="must-pass-through rule for the zoned instant; finite-range evaluation of accessor expressions against CEL's conventions; symbolic linear-form evaluation of the fixed-offset parser; table agreement for duration units",
+    text="Decides the accessor conventions and wiring: every timestamp accessor reads its field from self.astimezone(tz_parse(tz_name)) and the integer expression it returns "
+         "agrees with CEL's convention over the whole range of that field; tz_offset_parse builds +-(hh*3600+mm*60) s in all 12 cases of sign x {hh=0,>0} x {mm=0,>0}; the "
+         "duration unit table is CEL's and the parser multiplies the number group by the scale of the unit group; duration getters use the right factor. Arithmetic "
+         "identities, IANA zone data and datetime range errors are not decided.",
+    design_ref="DESIGN.md section 4 C11",
+    note=TB + " datetime/pendulum behave as documented.")
+
 PENDING = {}  # property id -> reason, for properties not claimed
 
 def main():
